@@ -15,13 +15,13 @@ RULE = (
     "NEB, IRV NEN built through make_assertions_from_json); the documented workflow pool_contests -> add_pool_contests -> "
     "set_tally_pool_means -> set_margin_from_cvrs -> overstatement_assorter is driven on fresh real objects (and, for "
     "populations with pooled cards, once more without the pool_contests/add_pool_contests step, so that a pooled batch holds "
-    "cards of several styles) and "
+    "cards of several styles; and once with the margins set by set_all_margins_from_cvrs for two contests, the other contest listed first and present on every other card; and once on assertion objects that were used before on an earlier version of the population, in which batch R was still pooled and the CVRs differed) and "
     "mean(B) - 1/2 is compared with (2 mean(A) - 1) / (2(2u - v)), A from the reference assorter (unfindable -> 0, missing "
     "contest under style -> 0), u, v and the pool means taken from the library's own attributes.  Non-trivial = state with "
     "a discrepancy, an unfindable card or a pooled card; distinct = distinct (kind, style, multiset)"
 )
 ASSUMPTIONS = ["relative/absolute tolerance 1e-9", "states with no card under audit (mean of nothing) are outside the quantifier and only counted"]
-REQUIRE_VAC = ["states_with_pooled_phantom", "states_all_unfindable", "states_negative_margin", "states_with_discrepancy", "cards_dropped_by_style"]
+REQUIRE_VAC = ["assertion_objects_used_before_on_an_earlier_population", "margins_set_for_two_contests_at_once", "states_with_pooled_phantom", "states_all_unfindable", "states_negative_margin", "states_with_discrepancy", "cards_dropped_by_style"]
 PLAN = {"quick": {"full": 2, "reduced": 3}, "thorough": {"full": 3, "reduced": 4}}
 
 
@@ -30,9 +30,9 @@ def bounds(tier):
             "alphabet sizes": {k: [len(s3.alphabet(k)), len(s3.alphabet(k, True))] for k in s3.KINDS}, "style": [True, False], "kinds": s3.KINDS}
 
 
-def judge(kind, cards, use_style, feats=None, add_pool=True):
+def judge(kind, cards, use_style, feats=None, add_pool=True, via_all=False, prior=False):
     try:
-        w = s3.workflow(kind, cards, use_style, add_pool=add_pool)
+        w = s3.workflow(kind, cards, use_style, add_pool=add_pool, via_all=via_all, prior=prior)
     except Exception as e:  # noqa
         return [(f"C03|{kind}|workflow-exception|{type(e).__name__}", f"workflow raised {type(e).__name__}: {str(e)[:80]}")], None
     under = w["under"]
@@ -97,23 +97,30 @@ def run_shard(sh, rec):
         cards = [alpha[a] for a in ms]
         rec.state()
         rec.trans()
-        for style, add_pool in ((True, True), (False, True), (True, False), (False, False)):
+        for style, add_pool, via_all, prior in ((True, True, False, False), (False, True, False, False), (True, False, False, False), (False, False, False, False),
+                                                (True, True, True, False), (False, True, True, False), (True, True, False, True), (False, True, False, True)):
             if not add_pool and not any(c[2] in ("P", "Q") for c in cards):
                 continue  # nothing is pooled: the preparation step changes nothing
+            if prior and not any(c[2] == "R" for c in cards):
+                continue  # the earlier use differs only in batch R
             feats = set()
-            v, o = judge(kind, cards, style, feats, add_pool)
+            v, o = judge(kind, cards, style, feats, add_pool, via_all, prior)
+            if prior:
+                rec.vac("assertion_objects_used_before_on_an_earlier_population")
             if not add_pool:
                 rec.vac("states_without_add_pool_contests")
+            if via_all:
+                rec.vac("margins_set_for_two_contests_at_once")
             rec.evals()
             for f in feats:
                 rec.vac(f)
-            rec.observe((kind, ms, reduced, style, o))
+            rec.observe((kind, ms, reduced, style, add_pool, via_all, prior, o))
             if feats & {"states_with_pooled_phantom", "states_with_discrepancy", "states_all_unfindable"}:
                 rec.outcome((kind, style, reduced, ms))
             if last:
                 rec.trace()
             for key, what in v:
-                rec.violate(key, what, {"kind": kind, "cards": [list(c) for c in cards], "style": style, "add_pool": add_pool})
+                rec.violate(key, what, {"kind": kind, "cards": [list(c) for c in cards], "style": style, "add_pool": add_pool, "via_all": via_all, "prior": prior})
             if rec.want_sample((kind, ms, reduced, style)):
                 rec.sample({"assorter": kind, "style": style, "cards": s3.show(kind, cards), "mean(B)-1/2, identity rhs, margin": o})
 
@@ -132,4 +139,4 @@ def explore(tier, seed):
 
 
 def run_case(case):
-    return judge(case["kind"], [tuple(c) for c in case["cards"]], case["style"], None, case.get("add_pool", True))[0]
+    return judge(case["kind"], [tuple(c) for c in case["cards"]], case["style"], None, case.get("add_pool", True), case.get("via_all", False), case.get("prior", False))[0]
